@@ -17,11 +17,11 @@ import (
 
 func init() {
 	register(&Prop{ID: "C09", Run: runC09, Enum: enumC09, Quick: 6000, Thorough: 400000, Level: "fault_enumeration",
-		Exhaustive: "adversary (12 kinds) x every stall offset k of the scripted frame x local state (11) x call (Close, CloseNow, CloseRead self-close) x role"})
+		Exhaustive: "adversary (12 kinds) x every stall offset k of the scripted frame x local state (12) x call (Close, CloseNow, CloseRead self-close) x role"})
 }
 
 var c09Adv = []string{"silent", "stall-data2", "stall-data4", "stall-data10", "stall-close", "flood", "huge", "never-reads", "half-close", "echo", "never-reads-sends-pongs", "late-ping-stall", "reads-at-deadline", "cut-data-eof", "cut-data-reset"}
-var c09State = []string{"idle", "reader-blocked", "half-read-in-frame", "half-read-frame-end", "closeread", "writer-blocked", "ping-waiting", "closeread+ping-waiting", "after-writer-misuse", "closed-then-closeread", "write-waiting-for-open-writer"}
+var c09State = []string{"idle", "reader-blocked", "half-read-in-frame", "half-read-frame-end", "closeread", "writer-blocked", "ping-waiting", "closeread+ping-waiting", "after-writer-misuse", "closed-then-closeread", "write-waiting-for-open-writer", "writer-left-buffer-nearly-full"}
 var c09Call = []string{"Close", "CloseNow", "none"}
 var c09EchoDelays = []time.Duration{0, 4900 * time.Millisecond, 5100 * time.Millisecond}
 
@@ -312,6 +312,29 @@ func runC09(r *Run) {
 				// write buffer or blocks in the transport is the library's business)
 				w.Write([]byte("left open"))
 			}
+		})
+	case 11:
+		// a streaming Writer has written one chunk that stays in the library's write
+		// buffer and fills it to within a few bytes (4080..4096 bytes of payload, so
+		// that with either role's header the buffer ends up anywhere from 14 bytes
+		// short to overflowing once): the next frame - the Close frame - has to push
+		// the buffer out before its own header fits
+		nearLen := 4080 + t.Draw(17)
+		nearD := track("near-writer")
+		r.S.Go("opener", func() {
+			if adv != 7 && adv != 10 && adv != 12 {
+				// (with a peer that reads, the chunk may as well go out at once)
+				nearLen += 200 * t.Draw(2)
+			}
+			w, err := c.Writer(bg, websocket.MessageBinary)
+			// (a chunk that overflows the buffer blocks in the transport when the peer
+			// does not read: then this is one more blocked call that has to return)
+			stateReady = true
+			if err == nil {
+				r.S.Count("probe.close-with-a-nearly-full-write-buffer")
+				w.Write(Payload{Kind: 2, Len: nearLen, Seed: 11}.Bytes())
+			}
+			*nearD = r.S.Now()
 		})
 	case 9:
 		// the connection is already closed when CloseRead is called for the first
